@@ -224,6 +224,13 @@ class SimpleHeatPumpCycle:
         except:
             self._state.update(CoolProp.PQ_INPUTS, p, phase) # Close to saturated liquid/vapour  
         return self._state
+
+
+    def _compute_saturated_state(self, p: float, phase: float) -> CoolProp.AbstractState:
+        """Saturated vapour (1.0) or liquid (0.0) at p. A (p, T) pair on the saturation line does not
+        fix the phase: CoolProp raises for some fluids and silently picks either side for others."""
+        self._state.update(CoolProp.PQ_INPUTS, p, phase)
+        return self._state
     
 
     def _compute_evaporator_outlet_state(
@@ -253,10 +260,13 @@ class SimpleHeatPumpCycle:
         T: float, 
         dT_sc: float,
     ) -> CoolProp.AbstractState:
-        try:
-            self._state.update(CoolProp.PT_INPUTS, p, T)
-        except:
-            self._state.update(CoolProp.PQ_INPUTS, p, 0.0) # Close to saturated liquid
+        if dT_sc > 0:
+            try:
+                self._state.update(CoolProp.PT_INPUTS, p, T)
+            except:
+                self._state.update(CoolProp.PQ_INPUTS, p, 0.0) # Close to saturated liquid
+        else:
+            self._compute_saturated_state(p, 0.0)
         
         if self._state.hmass() > self._cycle_states[0, 'H']:
             self._state.update(CoolProp.HmassP_INPUTS, self._cycle_states[0, 'H'], p)
@@ -348,18 +358,22 @@ class SimpleHeatPumpCycle:
 
         """Solve a basic four-state cycle given inlet/outlet temperatures and pressures."""
         # Evaporator outlet / IHX inlet
-        self._compute_state_from_pressure_temperature(
-            p=p0, 
-            T=T0,            
-        )
+        if dT_sh > 0:
+            self._compute_state_from_pressure_temperature(
+                p=p0, 
+                T=T0,            
+            )
+        else:
+            self._compute_saturated_state(p0, 1.0)
         h_ihx_in = self._state.hmass()
         self._save_cycle_state(0)
 
         # IHX outlet / compressor inlet
-        self._compute_state_from_pressure_temperature(
-            p=p0, 
-            T=T0 + self._ihx_gas_dt,
-        )      
+        if dT_sh + self._ihx_gas_dt > 0:
+            self._compute_state_from_pressure_temperature(
+                p=p0, 
+                T=T0 + self._ihx_gas_dt,
+            )      
         dh_ihx = self._state.hmass() - h_ihx_in
 
         # Compressor discharge (real)
